@@ -26,12 +26,14 @@ import (
 	"strconv"
 	"strings"
 	"sync"
+	"sync/atomic"
 	"syscall"
 	"time"
 
 	"github.com/logrange/logrange/api"
 	"github.com/logrange/logrange/pkg/model"
 	"github.com/logrange/logrange/pkg/partition"
+	"github.com/logrange/logrange/pkg/tmindex"
 	"github.com/logrange/logrange/pkg/utils/verifhook"
 	"verifharness/internal/lrsrv"
 	"verifharness/internal/vh"
@@ -1236,6 +1238,26 @@ func genSys(rng *vh.Rng, withReader bool) sysCase {
 				}
 				evs = append(evs, evSpec{Ts: ts, Pad: rng.PickI([]int{0, 0, 0, 3, 9, 17})})
 			}
+			// one later batch in four straddles what the partition holds so far: it carries an event older than everything
+			// and, not at its end, an event newer than everything (out-of-order ingestion). When it is the last batch landing
+			// in a chunk the chunk's hull must have grown on BOTH sides (tmindex chkInfo.update).
+			if b > 0 && n >= 3 && rng.Chance(1, 4) {
+				lo, hi := evs[0].Ts, evs[0].Ts
+				for _, pb := range p.Batches {
+					for _, e := range pb {
+						if e.Ts < lo {
+							lo = e.Ts
+						}
+						if e.Ts > hi {
+							hi = e.Ts
+						}
+					}
+				}
+				if lo > 2 {
+					evs[0].Ts = lo - int64(rng.Range(1, 2))
+					evs[rng.Range(1, n-2)].Ts = hi + int64(rng.Range(2, 9))
+				}
+			}
 			// one batch in five is peaked: its youngest event is followed by older ones (merged / forwarded logs), so the
 			// chunk's true maximum is not at its end and BEFORE must go by the maximum, not by the last event
 			if n >= 3 && rng.Chance(1, 5) {
@@ -1336,7 +1358,17 @@ func aimStmt(rng *vh.Rng, c sysCase, lay []partObs) stmtSpec {
 						mx = t
 					}
 				}
+				second := int64(-1 << 62) // second-newest distinct timestamp of the chunk
+				for _, t := range ch.Tss {
+					if t < mx && t > second {
+						second = t
+					}
+				}
 				tss = append(tss, ch.Tss[len(ch.Tss)-1], ch.MaxTs, ch.Tss[0], mx, mx)
+				if second > 0 {
+					// a bound in (second-newest, newest]: only the chunk's single newest event decides
+					tss = append(tss, second+1, second+1, (second+mx+1)/2)
+				}
 			}
 		}
 	}
@@ -1692,6 +1724,10 @@ func replay(path string) {
 		}
 	case "sizerace":
 		sectionSizeRace()
+	case "droprace":
+		sectionDropRace()
+	case "hull":
+		sectionHull()
 	default:
 		res.Note("replay: section %q has no single-input replay; re-run the check with the recorded seed", e.Section)
 	}
@@ -1726,6 +1762,187 @@ func sectionChooserOnly(es []corpusEntry) {
 		}
 	}
 	res.Done(sec)
+}
+
+// ---------------------------------------------------------------------------------------------
+// hull: the chunk's time hull as the time index maintains it (tmindex chkInfo creation + update)
+
+func sectionHull() {
+	sec := res.Section("hull", "unit-correspondence",
+		"the [MinTs,MaxTs] hull a chunk gets from a sequence of 1..4 write notifications, each a [min,max] pair with 1 <= min <= max <= 5 (exhaustive: 15 + 15^2 + 15^3 + 15^4 sequences): real chkInfo creation + chkInfo.update (pkg/tmindex/export_c09_verif.go) vs the Lean hull model vs SPEC (the hull covers every notification: BEFORE compares its MaxTs). non-trivial = a later notification extends the hull, distinct by sequence")
+	sec.Exhaustive = true
+	defer res.Done(sec)
+	var pairs [][2]int64
+	for a := int64(1); a <= 5; a++ {
+		for b := a; b <= 5; b++ {
+			pairs = append(pairs, [2]int64{a, b})
+		}
+	}
+	var seqs [][][2]int64
+	var gen func(cur [][2]int64, k int)
+	gen = func(cur [][2]int64, k int) {
+		if len(cur) > 0 {
+			seqs = append(seqs, append([][2]int64{}, cur...))
+		}
+		if len(cur) == k {
+			return
+		}
+		for _, p := range pairs {
+			gen(append(cur, p), k)
+		}
+	}
+	gen(nil, 4)
+	lines := make([]string, len(seqs))
+	for i, sq := range seqs {
+		var sb strings.Builder
+		fmt.Fprintf(&sb, "hull %d", len(sq))
+		for _, p := range sq {
+			fmt.Fprintf(&sb, " %d %d", p[0], p[1])
+		}
+		lines[i] = sb.String()
+	}
+	outs, err := vh.Batch(args.Driver, lines)
+	if err != nil {
+		res.Fatal(args.Out, "driver: %v", err)
+	}
+	for i, sq := range seqs {
+		mn, mx, _ := tmindex.VerifChunkHull(sq)
+		impl := fmt.Sprintf("%d %d", mn, mx)
+		key := ""
+		if mn != sq[0][0] || mx != sq[0][1] {
+			key = lines[i]
+		}
+		res.Eval(sec, key)
+		if impl != outs[i] {
+			res.Mismatch(vh.Mismatch{Section: "hull", Function: "tmindex.chkInfo.update", Input: map[string]interface{}{"notifications": sq}, Impl: impl, Model: outs[i]})
+		}
+		for _, p := range sq {
+			if p[0] < mn || p[1] > mx {
+				res.SpecFail(vh.SpecFailure{Section: "hull", Kind: "hull-not-covering", Input: map[string]interface{}{"notifications": sq}, Impl: impl,
+					Spec: "covers every notification", Model: outs[i], ImplEqModel: impl == outs[i],
+					What: fmt.Sprintf("after the write notifications %v the chunk's hull is [%d,%d]: it does not cover [%d,%d], so BEFORE t with t in (%d,%d] would remove a chunk holding an event not older than t", sq, mn, mx, p[0], p[1], mx, p[1])})
+				break
+			}
+		}
+	}
+}
+
+// ---------------------------------------------------------------------------------------------
+// droprace: a write into a NEW chunk between truncate's snapshot and deleteJournal's exclusive lock
+
+func sectionDropRace() {
+	if !verifhook.Enabled {
+		return
+	}
+	sec := res.Section("droprace", "spec-search",
+		"deterministic replay of one interleaving per statement form (BEFORE newer than everything / MAXSIZE 1 / MAXDBSIZE 0): the partition holds exactly one FULL chunk, so TRUNCATE removes every chunk it sees and goes on to drop the partition; the truncating goroutine is parked right after its snapshot (hook partition.truncate.sized), a second client writes one event - it lands in a NEW chunk -, waits for the flush and has released the partition; then the truncation continues. Afterwards the partition must exist and a full read must return exactly that event: a partition is dropped only when it holds no data (deleteJournal re-checks the size under the exclusive lock)")
+	defer res.Done(sec)
+	for _, form := range []string{"before", "maxsize", "maxdbsize"} {
+		dropRaceCase(sec, form)
+	}
+}
+
+func dropRaceCase(sec *vh.Section, form string) {
+	const maxChunk = 100
+	dir := lrsrv.NewDir()
+	defer os.RemoveAll(dir)
+	srv, err := lrsrv.Start(dir, lrsrv.Opts{MaxChunkSize: maxChunk})
+	if err != nil {
+		res.Note("droprace: %v", err)
+		return
+	}
+	defer srv.Stop()
+	tags := "g=d,p=1"
+	write := func(seq int) {
+		var wr api.WriteResult
+		srv.Client.Write(context.Background(), tags, "", []*api.LogEvent{{Timestamp: int64(seq), Message: fmt.Sprintf("%04d_", seq)}}, &wr)
+	}
+	// fill exactly one chunk: event by event until its confirmed size reaches MaxChunkSize
+	n := 0
+	for n < 40 {
+		n++
+		write(n)
+		srv.FlushWait()
+		settle(srv, tags, n)
+		o := observe(srv, tags)
+		if len(o.Chunks) != 1 {
+			res.Note("droprace: layout is not one chunk: %s", o.layout())
+			return
+		}
+		if o.Chunks[0].Size >= maxChunk {
+			break
+		}
+	}
+	before := observe(srv, tags)
+	parked := make(chan struct{})
+	release := make(chan struct{})
+	// MAXDBSIZE: the pass that drops the partition is phase II, whose inner truncate is the SECOND call for this
+	// partition (phase I's call chooses nothing here); parking at the first one would put the write before the
+	// snapshot that counts, and the pass takes whatever the partition holds then (finding F32's territory)
+	parkAt := int32(1)
+	if form == "maxdbsize" {
+		parkAt = 2
+	}
+	var calls int32
+	verifhook.Set("partition.truncate.sized", func() {
+		if atomic.AddInt32(&calls, 1) == parkAt {
+			close(parked)
+			<-release
+		}
+	})
+	defer verifhook.Set("partition.truncate.sized", nil)
+	q := "truncate {" + tags + "}"
+	switch form {
+	case "before":
+		q += fmt.Sprintf(" before \"%d\"", n+50)
+	case "maxsize":
+		q += " maxsize 1"
+	case "maxdbsize":
+		q += " maxdbsize 0"
+	}
+	var out string
+	var xerr error
+	fin := make(chan struct{})
+	go func() {
+		defer close(fin)
+		r, err := srv.Admin.Execute(api.ExecRequest{Query: q})
+		out, xerr = r.Output, err
+	}()
+	late := n + 400
+	select {
+	case <-parked:
+	case <-time.After(3 * time.Second):
+		res.Note("droprace(%s): the hook partition.truncate.sized was not reached", form)
+		close(release)
+		<-fin
+		return
+	}
+	if !vh.WithTimeout(5*time.Second, func() { write(late); srv.FlushWait(); settle(srv, tags, n+1) }) {
+		res.Note("droprace(%s): the concurrent write did not complete while the truncation was parked", form)
+	}
+	mid := observe(srv, tags)
+	close(release)
+	<-fin
+	time.Sleep(15 * time.Millisecond)
+	after := observe(srv, tags)
+	res.Eval(sec, q)
+	res.Dist(sec, fmt.Sprintf("form=%s new-chunk=%v", form, len(mid.Chunks) == 2))
+	in := map[string]interface{}{"stmt": q, "before": before.layout(), "at_hook": fmt.Sprintf("one event (%d) written, flushed and released; layout then: %s", late, mid.layout()),
+		"interleaving": "truncate snapshot | write into a new chunk, flush, release | DeleteChunks, deleteJournal"}
+	if len(mid.Chunks) != 2 {
+		res.Note("droprace(%s): the racing write did not open a new chunk (%s): interleaving not exercised", form, mid.layout())
+		return
+	}
+	rs, rerr := readSeqs(after.Read)
+	if xerr != nil || !after.Exists || rerr != "" || fmt.Sprint(rs) != fmt.Sprint([]int{late}) {
+		// MODEL (Props.C09.drop_only_without_data_at_lock / cex_drop_without_recheck): with the size re-check under the
+		// exclusive lock the drop is refused; the driver answers what deleteJournal does with and without it
+		outs, _ := vh.Batch(args.Driver, []string{fmt.Sprintf("dropat 0 1 %d %d %d", mid.Chunks[1].Id%1000000, mid.Chunks[1].Size, late)})
+		res.SpecFail(vh.SpecFailure{Section: "droprace", Kind: "dropped-with-data", Input: in,
+			Impl: fmt.Sprintf("exists=%v read=%v report=%q err=%v", after.Exists, after.Read, strings.TrimSpace(out), xerr), Spec: fmt.Sprintf("partition exists, read = [%d]", late),
+			Model: strings.Join(outs, ""), ImplEqModel: false,
+			What: "a partition that received (and acknowledged) an event between truncate's snapshot and deleteJournal's exclusive lock was dropped with that event in it"})
+	}
 }
 
 // ---------------------------------------------------------------------------------------------
@@ -1847,6 +2064,7 @@ func main() {
 		runSysSection("corpus", "corpus", "recorded system cases (known-finding witnesses and minimised past failures), replayed first", cc)
 	}
 	sectionChooser(rng.Fork("chooser"), corpus)
+	sectionHull()
 	n, nr := 400, 80
 	if args.Thorough {
 		n, nr = 1500, 300
@@ -1857,5 +2075,6 @@ func main() {
 		genCases(rng.Fork("reader"), nr, true))
 	sectionWriter(rng.Fork("writer"))
 	sectionSizeRace()
+	sectionDropRace()
 	res.Write(args.Out)
 }
